@@ -6,6 +6,7 @@ import (
 	"math/rand"
 	"os"
 	"path/filepath"
+	"runtime"
 	"sort"
 	"strconv"
 	"strings"
@@ -111,6 +112,7 @@ func RunFamily(f *Family, tier string) int {
 		sel = f.Select(units, tier, rng)
 	}
 	dEnum := time.Since(tEnum).Seconds()
+	memlog("enumerated")
 	// unbounded (SMT) checks of the design run next to the replay
 	apaDone := make(chan []map[string]any, 1)
 	go func() {
@@ -168,6 +170,9 @@ func RunFamily(f *Family, tier string) int {
 			}
 			continue
 		}
+		if err := ev.compact(); err != nil {
+			return infra(f.Prop, err)
+		}
 		events = append(events, ev)
 		evExec = append(evExec, e)
 	}
@@ -175,9 +180,11 @@ func RunFamily(f *Family, tier string) int {
 		return infra(f.Prop, fmt.Errorf("%d of %d units could not be observed (generation or build failed), e.g. %v", unobs, len(execs), unobsSample))
 	}
 	dExec := time.Since(tExec).Seconds()
+	memlog("executed+observed")
 	tVal := time.Now()
 	reports, tally, tr, err := Validate(f, sc, "tv", events, devs)
 	dVal := time.Since(tVal).Seconds()
+	memlog("validated")
 	if err != nil {
 		return infra(f.Prop, err)
 	}
@@ -210,7 +217,13 @@ func RunFamily(f *Family, tier string) int {
 		if fh, err := os.Create(filepath.Join(dir, fmt.Sprintf("reports-%s-seed%d.ndjson", tier, seed))); err == nil {
 			enc := json.NewEncoder(fh)
 			enc.SetEscapeHTML(false)
+			perClass := map[string]int{}
 			for _, r := range reports {
+				// triage needs every violation and a good sample of the rest, not 10^5 unspecified documents
+				perClass[r.Class]++
+				if r.Class != "violation" && perClass[r.Class] > 3000 {
+					continue
+				}
 				e := evExec[r.L-1]
 				m := map[string]any{"class": r.Class, "kind": r.Kind, "devs": r.Devs, "ref": r.Ref, "obs": r.Obs, "impl": r.Impl,
 					"schema": e.Schema, "opts": e.Unit.Raw["opts"], "builderr": firstLine(e.BuildErr), "fmtbad": e.FmtBad}
@@ -426,6 +439,17 @@ func RunFamily(f *Family, tier string) int {
 		return 1
 	}
 	return 0
+}
+
+// memlog prints the live heap at a phase boundary when VERIF_MEMLOG is set (development aid).
+func memlog(tag string) {
+	if os.Getenv("VERIF_MEMLOG") == "" {
+		return
+	}
+	var m runtime.MemStats
+	runtime.GC()
+	runtime.ReadMemStats(&m)
+	fmt.Fprintf(os.Stderr, "[mem] %s: heap=%dMB sys=%dMB\n", tag, m.HeapAlloc>>20, m.Sys>>20)
 }
 
 func firstLine(s string) string {
